@@ -34,7 +34,8 @@ func newNodeLoader(
 	}
 }
 
-// Load returns the newly added node or nil.
+// Load returns the node an annotation which follows the lexeme belongs to: the
+// newly added node, the object which has just been closed, or nil.
 func (nl *nodeLoader) Load(lex lexeme.LexEvent) schema.Node {
 	defer lexeme.CatchLexEventError(lex)
 
@@ -54,6 +55,13 @@ func (nl *nodeLoader) Load(lex lexeme.LexEvent) schema.Node {
 		return node
 	}
 
+	var closed schema.Node
+	if lex.Type() == lexeme.ObjectEnd {
+		// A note after the closing brace is a note of the object, not of its
+		// last property.
+		closed = nl.leaf
+	}
+
 	var isNewChildNode bool
 	nl.leaf, isNewChildNode = nl.leaf.Grow(lex)
 	if isNewChildNode {
@@ -61,5 +69,5 @@ func (nl *nodeLoader) Load(lex lexeme.LexEvent) schema.Node {
 		return nl.leaf
 	}
 
-	return nil
+	return closed
 }
